@@ -35,12 +35,23 @@ func dynFieldName(u *ssa.UnOp) string {
 	if !ok {
 		return ""
 	}
-	p, ok := fa.X.(*ssa.Parameter)
-	if !ok {
+	var base string
+	switch p := fa.X.(type) {
+	case *ssa.Parameter:
+		base = p.Name()
+	case *ssa.FreeVar:
+		base = p.Name()
+	case *ssa.UnOp: // a captured variable holding the pointer: *srv
+		if fv, ok := p.X.(*ssa.FreeVar); ok && p.Op == token.MUL {
+			base = fv.Name()
+		} else {
+			return ""
+		}
+	default:
 		return ""
 	}
 	st := fa.X.Type().Underlying().(*types.Pointer).Elem().Underlying().(*types.Struct)
-	return p.Name() + "." + st.Field(fa.Field).Name()
+	return base + "." + st.Field(fa.Field).Name()
 }
 
 func (g *Gen) calleeContract(cc *ssa.CallCommon) *Contract {
